@@ -31,55 +31,23 @@ func (c *GoCase) Key() string { return c.Desc + "|" + dumpV(c.V) }
 
 // ---- compiled seed types (cannot be built with reflect.StructOf) ----
 
-type SeedMyInt int
-type SeedMyStr string
-type SeedMyMap map[string]int
-type SeedMySlice []string
-type SeedMyArr [2]uint8
-type SeedMyIfc interface{ M() }
+// the method-bearing seed types live in package gen so that they can also serve as field types of generated structs
+type (
+	SeedMyInt   = gen.SeedMyInt
+	SeedMyStr   = gen.SeedMyStr
+	SeedMyMap   = gen.SeedMyMap
+	SeedMySlice = gen.SeedMySlice
+	SeedMyArr   = gen.SeedMyArr
+	SeedMyIfc   = gen.SeedMyIfc
+	SeedFolderV = gen.SeedFolderV
+	SeedFolderP = gen.SeedFolderP
+	SeedZeroV   = gen.SeedZeroV
+	SeedZeroP   = gen.SeedZeroP
+)
+
 type seedImpl struct{ N int }
 
 func (seedImpl) M() {}
-
-// Folder with value receiver / pointer receiver
-type SeedFolderV struct{ A int }
-
-func (f SeedFolderV) Fold(v structform.ExtVisitor) error {
-	if err := v.OnObjectStart(1, structform.AnyType); err != nil {
-		return err
-	}
-	if err := v.OnKey("custom"); err != nil {
-		return err
-	}
-	if err := v.OnInt(f.A); err != nil {
-		return err
-	}
-	return v.OnObjectFinished()
-}
-
-type SeedFolderP struct{ A int }
-
-func (f *SeedFolderP) Fold(v structform.ExtVisitor) error {
-	if err := v.OnObjectStart(-1, structform.AnyType); err != nil {
-		return err
-	}
-	if err := v.OnKey("customp"); err != nil {
-		return err
-	}
-	if err := v.OnInt(f.A); err != nil {
-		return err
-	}
-	return v.OnObjectFinished()
-}
-
-// IsZeroer with value receiver / pointer receiver
-type SeedZeroV struct{ N int }
-
-func (z SeedZeroV) IsZero() bool { return z.N == 0 }
-
-type SeedZeroP struct{ N int }
-
-func (z *SeedZeroP) IsZero() bool { return z.N == 0 }
 
 type SeedRec struct {
 	V    int
@@ -266,6 +234,19 @@ func goFamilies(tier string, run func(x *engine.Exec, c *GoCase)) []engine.Famil
 			f2 := ft0[x.Choose(len(ft0))]
 			t2 := tags[x.Choose(len(tags))]
 			mkStruct(x, "struct2", []gen.FieldType{f1, f2}, []string{t1, t2}, tierPick(tier, 3, 4))
+		}},
+		{Name: "struct2-seeds", Arity: []int{len(gen.SeedFieldTypes()), len(tags)}, Body: func(x *engine.Exec) {
+			// a method-bearing seed type (IsZeroer / Folder with value and pointer receivers, named types) next to a plain field, in both orders
+			sf := gen.SeedFieldTypes()
+			f2 := sf[x.Choose(len(sf))]
+			t2 := tags[x.Choose(len(tags))]
+			f1 := ft0[x.Choose(2)]
+			t1 := []string{"", ",omitempty", "-"}[x.Choose(3)]
+			if x.Bool() {
+				mkStruct(x, "struct2-seeds", []gen.FieldType{f1, f2}, []string{t1, t2}, 3)
+			} else {
+				mkStruct(x, "struct2-seeds", []gen.FieldType{f2, f1}, []string{t2, t1}, 3)
+			}
 		}},
 		{Name: "plain", Arity: []int{len(ft1)}, Body: func(x *engine.Exec) {
 			ft := ft1[x.Choose(len(ft1))]
